@@ -55,6 +55,9 @@ def check(run, views, tier):
     from . import c18, c19, c20
     # the helper reads the first printer-attributes group through the container API and the value iterator (C19's clauses)
     include(run, c19, views, tier)
+    # ... and on the parser delivering every value of a set (C04: nothing received is dropped)
+    from . import c04
+    include(run, c04, views, tier)
     # a response that went through the serde feature must still carry typed values (C20's audit), where that feature is compiled
     sv = {c: cr_ for c, cr_ in views.items() if "serde" in cr_["ipp"].features}
     if sv:
